@@ -386,6 +386,9 @@ func damage(c *hlib.Ctx, s *soup3) string {
 		s.faces = append(s.faces, [3]int{f[k], f[(k+1)%3], len(s.coords) - 1})
 		return "fin"
 	case 6: // a translated copy touching at one vertex
+		if len(s.faces) > 500 {
+			return "none" // keep the cases small: the copy doubles the mesh
+		}
 		vs := s.usedVerts()
 		p := s.coords[vs[c.Rng.Intn(len(vs))]]
 		q := s.coords[vs[c.Rng.Intn(len(vs))]]
